@@ -668,3 +668,20 @@ def _q_sum(st, items, d):
         if isinstance(r, Quantity):
             return "ok qty " + show_qty(r)
         return "ok num " + num_str(r)
+
+
+@op("q_hash")
+def _q_hash(st, a, b):
+    qa, qb = qty_of(a), qty_of(b)
+    eq = qa == qb
+    heq = hash(qa) == hash(qb)
+    if eq:
+        assert (len({qa, qb}) == 1) == heq
+    return f"ok eq={_b(eq)} hasheq={_b(heq)}"
+
+
+@op("u_hash")
+def _u_hash(st, u, v):
+    a, b = Unit(u), Unit(v)
+    eq = a == b
+    return f"ok eq={_b(eq)} hasheq={_b(hash(a) == hash(b))}"
